@@ -106,12 +106,14 @@ func externalMethodHavoc(c *ssa.CallCommon) bool {
 func (vc *VC) execExternal(f *ssa.Function, c *ssa.CallCommon, h *Heap, reach string) []Term {
 	es := externalSpec(f)
 	name := f.String()
+	if name == "fmt.Errorf" || name == "errors.New" {
+		// ghost: the number of error values created so far
+		vc.compDecl("Gerr_n", SInt)
+		vc.set(h, "Gerr_n", app("+", vc.get(h, "Gerr_n"), "1"))
+	}
 	vc.trusted["external "+name] = true
 	if !es.Known {
 		vc.assumptions["external function "+name+" has no table entry (treated as unknown)"] = true
-	}
-	if !es.NoPanic {
-		vc.safety("ext."+name, reach, "false", "external function "+name+" is not known to be panic-free")
 	}
 	switch name {
 	case "hash/fnv.New64a":
@@ -142,6 +144,9 @@ func (vc *VC) execExternal(f *ssa.Function, c *ssa.CallCommon, h *Heap, reach st
 		vc.set(h, comp, app("store", e0, app("s.arr", b.S), row))
 		return nil
 	}
+	if !es.NoPanic {
+		vc.safety("ext."+name, reach, "false", "external function "+name+" is not known to be panic-free")
+	}
 	if name == "fmt.Sprintf" {
 		if r, ok := vc.sprintfCall(c, h); ok {
 			return []Term{r}
@@ -155,6 +160,12 @@ func (vc *VC) execExternal(f *ssa.Function, c *ssa.CallCommon, h *Heap, reach st
 			if es.HavocArgs || es.HavocAll {
 				vc.havocAddr(h, ad)
 			}
+			simple = false
+			args = append(args, Term{})
+			continue
+		}
+		if _, isGlobal := a.(*ssa.Global); isGlobal {
+			// the address of a package-level variable (a mutex, a table) handed to an external function: opaque
 			simple = false
 			args = append(args, Term{})
 			continue
